@@ -20,7 +20,10 @@ Definition f64_mul (a b : f64) : f64 := Bmult mode_NE a b.
 Definition f64_add (a b : f64) : f64 := Bplus mode_NE a b.
 Definition f64_half : f64 := f64_div (f64_of_Z 1) (f64_of_Z 2).
 
-Definition f64_rnd (P freq total : Z) : Z :=
-  Btrunc (f64_add (f64_mul (f64_div (f64_of_Z freq) (f64_of_Z total)) (f64_of_Z (2 ^ P))) f64_half).
-Definition f64_scale (P total p : Z) : Z :=
-  Btrunc (f64_mul (f64_div (f64_of_Z (2 ^ P)) (f64_of_Z total)) (f64_of_Z p)).
+Definition f64_rnd (P total : Z) : Z -> Z :=
+  let t := f64_of_Z total in
+  let pr := f64_of_Z (2 ^ P) in
+  let h := f64_half in
+  fun freq => Btrunc (f64_add (f64_mul (f64_div (f64_of_Z freq) t) pr) h).
+Definition f64_rel (P total : Z) : f64 := f64_div (f64_of_Z (2 ^ P)) (f64_of_Z total).
+Definition f64_scale (rel : f64) (p : Z) : Z := Btrunc (f64_mul rel (f64_of_Z p)).
